@@ -17,7 +17,17 @@ fn replay_content_identity() {
     let dir = tempfile::tempdir().unwrap();
     let cfg = Config { num_ops_per_wal: NonZeroU64::new(3).unwrap(), scan_orphans_on_startup: false, ..Default::default() };
     let cas: Cas<String> = Cas::open(dir.path(), cfg).unwrap();
+    let abandon = v["abandon_first"].as_bool().unwrap_or(false);
     for (n, plan) in plans.iter().enumerate() {
+        if abandon {
+            // a transaction on the same store is written to and dropped without finish (several sizes: below and above
+            // typical buffer sizes); nothing of it may reach the transaction that follows
+            for junk in [7usize, 3000, 70_000] {
+                let mut t0 = cas.put(format!("abandoned{n}-{junk}")).unwrap();
+                t0.write(&vec![0xEEu8; junk]).unwrap();
+                drop(t0);
+            }
+        }
         let total: usize = plan.iter().sum();
         let content: Vec<u8> = (0..total).map(|i| (i as u8).wrapping_mul(31).wrapping_add(n as u8)).collect();
         let key = format!("k{n}");
